@@ -58,7 +58,9 @@ def _draw(world: World) -> dict:
     n = 1 + world.choose("nrec", 4)
     scn["sizes"] = [1 + world.choose("size", [40, 300, 2000, 16384][world.choose("sizeclass", 4)]) for _ in range(n)]
     scn["gaps"] = [world.choose("gap", 4) for _ in range(n + 1)]
-    scn["closer"] = world.pick("closer", ["peer", "lib"])
+    scn["closer"] = world.pick("closer", ["peer", "lib", "lib-concurrent"])
+    scn["peer_on_cn"] = world.pick("peer_on_cn", ["reply", "drop"])
+    scn["extra_reads"] = world.choose("extra_reads", 3)
     scn["use_recv_into"] = bool(world.choose("recv_into", 2))
     scn["bufsize"] = world.pick("bufsize", [65536, 1, 7, 100, 4096, 16384])
     scn["p2l_sizes"] = [world.pick("fs", [1 << 30, 1, 5, 64, 1000, 3, 17]) for _ in range(1 + world.choose("nfs", 4))]
@@ -84,6 +86,7 @@ class _Res:
     tls_closing: bool = False
     second_close_ok: bool = True
     aclose_exc: str | None = None
+    after: list = []
 
 
 def _execute_async(parent: World, scn: dict, cut: int | None) -> _Res:
@@ -113,9 +116,15 @@ def _execute_async(parent: World, scn: dict, cut: int | None) -> _Res:
             t += scn["gaps"][-1] / 64.0
             w.after(t, lambda: peer.close(notify=True))
         else:
-            peer.auto_close_reply = True
+            peer.auto_close_reply = "drop" if (scn["closer"] == "lib-concurrent" and scn["peer_on_cn"] == "drop") else True
 
     peer.on_handshake_done = after_handshake
+
+    async def one_read(tls, buf):
+        if scn["use_recv_into"]:
+            n = await tls.recv_into(buf)
+            return bytes(buf[:n])
+        return await tls.recv(scn["bufsize"])
 
     async def lib_main() -> None:
         tr = await backend.wrap_stream_socket(lib)
@@ -135,28 +144,54 @@ def _execute_async(parent: World, scn: dict, cut: int | None) -> _Res:
         res.wrap = "ok"
         got = bytearray()
         buf = bytearray(scn["bufsize"])
-        while True:
-            if scn["closer"] == "lib" and len(got) >= len(expected):
-                res.end = ("lib-close",)
-                break
-            try:
-                if scn["use_recv_into"]:
-                    n = await tls.recv_into(buf)
-                    data = bytes(buf[:n])
+        all_read = asyncio.Event()
+
+        async def reader() -> None:
+            while True:
+                if len(got) >= len(expected):
+                    all_read.set()
+                    if scn["closer"] == "lib":
+                        res.end = ("lib-close",)
+                        break
+                try:
+                    data = await one_read(tls, buf)
+                except Exception as e:
+                    res.end = ("exc", type(e).__name__)
+                    break
+                if not data:
+                    res.end = ("eof",)
+                    break
+                got.extend(data)
+            all_read.set()
+            # reads after the stream ended: a truncation must never turn into a clean end-of-stream later on
+            for _ in range(scn["extra_reads"] if res.end[0] in ("exc", "eof") else 0):
+                try:
+                    data = await one_read(tls, buf)
+                except Exception as e:
+                    res.after.append("exc")
                 else:
-                    data = await tls.recv(scn["bufsize"])
+                    res.after.append("data" if data else "eof")
+
+        res.after = []
+        if scn["closer"] == "lib-concurrent":
+            rt = asyncio.get_running_loop().create_task(reader(), name="reader")
+            await all_read.wait()
+            await asyncio.sleep(scn["gaps"][-1] / 64.0)
+            try:
+                await tls.aclose()
             except Exception as e:
-                res.end = ("exc", type(e).__name__)
-                break
-            if not data:
-                res.end = ("eof",)
-                break
-            got += data
+                res.aclose_exc = type(e).__name__
+            await asyncio.wait([rt], timeout=120)
+            if not rt.done():
+                res.blocked = True
+                rt.cancel()
+        else:
+            await reader()
+            try:
+                await tls.aclose()
+            except Exception as e:
+                res.aclose_exc = type(e).__name__
         res.plain = bytes(got)
-        try:
-            await tls.aclose()
-        except Exception as e:
-            res.aclose_exc = type(e).__name__
         res.tls_closing = tls.is_closing()
         t0 = w.now
         n0 = w.counters["loop_iterations"]
@@ -191,6 +226,8 @@ def _execute_sync(parent: World, scn: dict, cut: int | None) -> _Res:
     from vsim.harness import sync_engine
     from vsim.tls import RealTLSPeer
 
+    if scn["closer"] == "lib-concurrent":
+        scn = {**scn, "closer": "lib"}  # one thread: reader and closer cannot overlap on the blocking transport
     w = World(parent=parent)
     w.quiet = True
     lib_server = scn["lib_server"]
@@ -298,9 +335,18 @@ def _mode(scn: dict) -> str:
     return f"{'srv' if scn['lib_server'] else 'cli'}-tls{scn['version']}-{'std' if scn['std'] else 'nonstd'}"
 
 
+def _check_after(r: _Res, scn: dict, engine: str, mode: str, where: str) -> None:
+    """reads issued after the stream ended with an error: in standard-compatible mode a truncation must never be
+    reported as a clean end-of-stream (nor produce data) by a later read either"""
+    if scn["std"] and r.end[0] == "exc" and any(x != "exc" for x in r.after):
+        raise Violation("later-read-clean-eof", f"first read raised {r.end[1]}, later reads gave {r.after}; {where}", key=f"C09/{engine}/{mode}/later-read-clean-eof")
+
+
 def _h_async(world: World, tier: str, engine: str = "aio") -> None:
     _execute = _execute_async if engine == "aio" else _execute_sync
     scn = _draw(world)
+    if engine == "sync" and scn["closer"] == "lib-concurrent":
+        scn["closer"] = "lib"  # one thread: reader and closer cannot overlap on the blocking transport
     world.notes.update(scenario={k: v for k, v in scn.items()})
     sizes = scn["sizes"]
     expected = b"".join(_payload(i, n) for i, n in enumerate(sizes))
@@ -316,6 +362,16 @@ def _h_async(world: World, tier: str, engine: str = "aio") -> None:
         raise Violation("no-cut/plaintext", f"read {len(base.plain)} bytes, expected {len(expected)}; {desc}", key=f"C09/{engine}/{mode}/no-cut/plaintext")
     if scn["closer"] == "peer" and base.end != ("eof",):
         raise Violation("no-cut/clean-eof", f"peer sent close_notify then FIN, reader got {base.end}; {desc}", key=f"C09/{engine}/{mode}/no-cut/clean-eof")
+    if scn["closer"] == "lib-concurrent":
+        # a reader task is blocked in recv while another task closes the transport
+        if scn["peer_on_cn"] == "reply" and base.end != ("eof",):
+            raise Violation("no-cut/clean-eof", f"peer answered our close_notify with its own, the blocked reader got {base.end}; {desc}", key=f"C09/{engine}/{mode}/no-cut/clean-eof-concurrent")
+        if scn["peer_on_cn"] == "drop":
+            if scn["std"] and base.end == ("eof",):
+                raise Violation("drop/truncation-as-clean-eof", f"the peer hung up without a close_notify after ours; the blocked standard-compatible reader reported a clean end-of-stream; {desc}", key=f"C09/{engine}/{mode}/drop/truncation-as-clean-eof")
+            if not scn["std"] and base.end != ("eof",):
+                raise Violation("drop/nonstd-raises", f"standard_compatible=False: abrupt end must be reported as end-of-stream, got {base.end}; {desc}", key=f"C09/{engine}/{mode}/drop/nonstd-raises")
+    _check_after(base, scn, engine, mode, desc)
     if scn["std"]:
         if not base.peer_saw_cn:
             raise Violation("close-sends-notify", f"standard-compatible aclose(): reference peer never saw a close_notify (peer error={base.peer_error}); {desc}", key=f"C09/{engine}/{mode}/close-sends-notify")
@@ -355,8 +411,11 @@ def _h_async(world: World, tier: str, engine: str = "aio") -> None:
     for k in offsets:
         r = _execute(world, scn, k)
         where = f"cut k={k} of {total} (hs_end={hs_end}, record ends={ends}); {desc}"
-        if r.total > total:
-            raise Violation("harness/length-drift", f"peer produced {r.total} cipher bytes in a swept run, base {total}", key="C09/harness/length-drift")
+        # lengths must be reproducible up to the cut (what the peer emits after the cut, e.g. an alert in answer to an
+        # abortive close, never reaches the library and does not matter)
+        ends_r = [e for e in _record_ends(r.wire) if e <= k]
+        if ends_r != [e for e in ends if e <= k][: len(ends_r)]:
+            raise Violation("harness/length-drift", f"peer cipher-text layout differs before the cut: {ends_r} vs base {ends}", key="C09/harness/length-drift")
         world.fault("fin_at")
         if r.blocked:
             raise Violation("cut/blocked", f"reader blocks forever; {where}", key=f"C09/{engine}/{mode}/cut/blocked")
@@ -390,6 +449,7 @@ def _h_async(world: World, tier: str, engine: str = "aio") -> None:
         else:
             if r.end != ("eof",):
                 raise Violation("cut/nonstd-raises", f"standard_compatible=False: abrupt end must be reported as end-of-stream, got {r.end}; {where}", key=f"C09/{engine}/{mode}/cut/nonstd-raises")
+        _check_after(r, scn, engine, mode, where)
         if not r.lib_sock_closed or not r.second_close_ok:
             raise Violation("cut/closed", f"after aclose(): socket closed={r.lib_sock_closed} second close prompt={r.second_close_ok}; {where}", key=f"C09/{engine}/{mode}/cut/closed")
 
